@@ -3,7 +3,6 @@ package rules
 import (
 	"fmt"
 	"go/types"
-	"sort"
 	"strings"
 
 	"golang.org/x/tools/go/ssa"
@@ -191,117 +190,162 @@ func c17(c *core.Ctx, r *core.Report) {
 	c17SetValue(c, r)
 }
 
+var unmarshallRows = map[string]string{
+	"not-configuration": "a property that is not a configuration property is refused with an error and nothing is decoded",
+	"nil-value":         "a nil configuration value binds nothing and is not an error",
+	"target":            "the value is decoded through reflectx.SetValue on the property's own Value, into the pointer SetValue supplies, and the decoder is fed Unmarshall's parameter itself",
+	"config":            "decoder configuration: weakly typed input, tag name yaml (or the mapper argument), no zeroing of fields, no squashing, no unused / unset key errors",
+	"error":             "a decoder construction or decoding error becomes a non-nil return; otherwise the result is nil",
+}
+
+// c17Decoder: decision table of Property.Unmarshall with whatever helpers it is split into; mapstructure and
+// reflectx.SetValue are oracles (SetValue itself is decided by its own table, R5).
 func c17Decoder(c *core.Ctx, r *core.Report, unm *ssa.Function) {
-	cons := "@" + core.FnName(unm)
-	fns := core.WithAnon(unm)
-	var decode *ssa.Call
-	var decodeFn *ssa.Function
-	for _, fn := range fns {
-		for _, ci := range core.Calls(fn) {
-			if call, ok := ci.(*ssa.Call); ok && core.IsExtCall(call.Common(), "(*github.com/mitchellh/mapstructure.Decoder).Decode") {
-				decode, decodeFn = call, fn
-			}
-		}
-	}
-	if decode == nil {
-		r.Undecided("C17.R4", "decode"+cons, c.FnPos(unm), "mapstructure Decode call not found")
+	cons := "unmarshall-table@" + core.FnName(unm)
+	prop := c.Named("component_definition", "Property")
+	tagArg := c.Named("component_definition", "TagArg")
+	argsM := c.DeclaredMethod(prop, "Args")
+	find := c.DeclaredMethod(tagArg, "Find")
+	setValue := c.Func("util/reflectx", "SetValue")
+	if argsM == nil || find == nil || setValue == nil {
+		r.Undecided("C17.R4", cons, c.FnPos(unm), "Property.Args / TagArg.Find / reflectx.SetValue not found")
 		return
 	}
-	// decoded input is Unmarshall's own parameter
-	in := core.Norm(decode.Common().Args[1])
-	okIn := false
-	if p, isP := in.(*ssa.Parameter); isP && p == unm.Params[1] {
-		okIn = true
-	}
-	if fv, isFV := in.(*ssa.FreeVar); isFV {
-		// captured parameter
-		for i, f2 := range decodeFn.FreeVars {
-			if f2 == fv {
-				for _, b := range unm.Blocks {
-					for _, ins := range b.Instrs {
-						if mc, isMC := ins.(*ssa.MakeClosure); isMC && mc.Fn == ssa.Value(decodeFn) && i < len(mc.Bindings) {
-							if st := core.SingleStore(mc.Bindings[i]); st != nil && st == ssa.Value(unm.Params[1]) {
-								okIn = true
+	rs := rows{}
+	runs := 0
+	for _, ptype := range []string{"Configuration", "Component"} {
+		for _, nilValue := range []bool{false, true} {
+			for _, mapper := range []bool{false, true} {
+				for _, layout := range []bool{false, true} {
+					var setTargets, decoded []string
+					var cfgs []*absint.Tok
+					var failed bool
+					var target *absint.Tok
+					build := func() (absint.Oracle, []absint.Value, []absint.Value) {
+						setTargets, decoded, cfgs, failed = nil, nil, nil, false
+						t := newTbl(c)
+						pr := absint.NewTok("prop", "property")
+						fld, base := absint.NewTok("prop.Field", "field"), absint.NewTok("prop.Field.Base", "base")
+						pr.Fields["Field"], fld.Fields["Base"] = fld, base
+						base.Fields["Value"] = absint.NewTok("prop.Value", "reflected")
+						pr.Fields["PropertyType"] = absint.Str(ptype)
+						args := absint.NewTok("args", "tagargs")
+						pr.Fields["args"] = args
+						t.callee[argsM] = func(ip *absint.Interp, a []absint.Value) absint.Value { return args }
+						t.callee[find] = func(ip *absint.Interp, a []absint.Value) absint.Value {
+							k, _ := a[1].(absint.Str)
+							switch {
+							case strings.EqualFold(string(k), "mapper") && mapper:
+								return absint.Tuple{&absint.List{Elems: []absint.Value{absint.Str("json")}}, absint.Bool(true)}
+							case strings.EqualFold(string(k), "timeLayout") && layout:
+								return absint.Tuple{&absint.List{Elems: []absint.Value{absint.Str("2006")}}, absint.Bool(true)}
 							}
+							return absint.Tuple{&absint.List{IsNil: true}, absint.Bool(false)}
 						}
-					}
-				}
-			}
-		}
-	}
-	if u, isU := in.(*ssa.UnOp); isU {
-		if st := core.SingleStore(u.X); st != nil && st == ssa.Value(unm.Params[1]) {
-			okIn = true
-		}
-	}
-	r.Check(okIn, "C17.R4", "decodes-its-parameter"+cons, c.Pos(decode.Pos()), "the decoder is fed Unmarshall's configValue parameter itself")
-	ud := core.ClassifyErr(decode)
-	r.Check(ud.Class == core.ErrTested || ud.Class == core.ErrReturned, "C17.R4", "decode-error"+cons, c.Pos(decode.Pos()), "a decoding error becomes a non-nil return")
-	// frozen decoder configuration: constants stored into the DecoderConfig literal
-	want := map[string]string{"WeaklyTypedInput": "true", "TagName": "\"yaml\""}
-	zeroWanted := []string{"ErrorUnused", "ErrorUnset", "ZeroFields", "Squash", "IgnoreUntaggedFields"}
-	got := map[string]string{}
-	resultFromParam := false
-	nCfg := 0
-	for _, fn := range c.Scope {
-		for _, b := range fn.Blocks {
-			for _, ins := range b.Instrs {
-				al, ok := ins.(*ssa.Alloc)
-				if !ok {
-					continue
-				}
-				n := core.NamedOf(al.Type())
-				if n == nil || n.Obj().Name() != "DecoderConfig" || n.Obj().Pkg() == nil || !strings.HasSuffix(n.Obj().Pkg().Path(), "mapstructure") {
-					continue
-				}
-				nCfg++
-				for _, rf := range *al.Referrers() {
-					fa, isFA := rf.(*ssa.FieldAddr)
-					if !isFA {
-						continue
-					}
-					st := core.StructOf(fa.X.Type())
-					name := st.Field(fa.Field).Name()
-					for _, r2 := range *fa.Referrers() {
-						if s, isSt := r2.(*ssa.Store); isSt {
-							if k, isK := s.Val.(*ssa.Const); isK && k.Value != nil {
-								got[name] = k.Value.ExactString()
+						target = absint.NewTok("target", "pointer")
+						t.callee[setValue] = func(ip *absint.Interp, a []absint.Value) absint.Value {
+							setTargets = append(setTargets, absint.Show(a[0]))
+							return ip.CallValue(a[1], target)
+						}
+						t.ext["github.com/mitchellh/mapstructure.NewDecoder"] = func(ip *absint.Interp, a []absint.Value) absint.Value {
+							if cfg, ok := a[0].(*absint.Tok); ok {
+								cfgs = append(cfgs, cfg)
 							} else {
-								got[name] = "<non-constant>"
+								panic(&absint.Undecided{Msg: "NewDecoder on an unmodelled configuration"})
 							}
-							if name == "Result" {
-								for _, o := range core.Origins(s.Val, nil) {
-									if _, isP := o.(*ssa.Parameter); isP {
-										resultFromParam = true
-									}
+							if ip.Choose(2, "NewDecoder outcome") == 1 {
+								failed = true
+								return absint.Tuple{absint.Nil{}, t.newErr("newdecoder")}
+							}
+							return absint.Tuple{absint.NewTok("decoder", "decoder"), absint.Nil{}}
+						}
+						t.ext["(*github.com/mitchellh/mapstructure.Decoder).Decode"] = func(ip *absint.Interp, a []absint.Value) absint.Value {
+							decoded = append(decoded, absint.Show(a[1]))
+							if ip.Choose(2, "Decode outcome") == 1 {
+								failed = true
+								return t.newErr("decode")
+							}
+							return absint.Nil{}
+						}
+						for _, h := range []string{"StringToTimeDurationHookFunc", "StringToTimeHookFunc", "ComposeDecodeHookFunc", "StringToSliceHookFunc", "TextUnmarshallerHookFunc"} {
+							h := h
+							t.ext["github.com/mitchellh/mapstructure."+h] = func(ip *absint.Interp, a []absint.Value) absint.Value { return absint.NewTok("hook:"+h, "hook") }
+						}
+						var in absint.Value = absint.NewTok("configValue", "any")
+						if nilValue {
+							in = absint.Nil{}
+						}
+						return t, []absint.Value{pr, in}, nil
+					}
+					check := func(ip *absint.Interp, out absint.Outcome) {
+						w := fmt.Sprintf("type=%s nil=%v mapper=%v timeLayout=%v: SetValue targets=%v decoded=%v => %s", ptype, nilValue, mapper, layout, setTargets, decoded, showOutcome(out))
+						if out.Panic != nil {
+							rs.fail("error", "PANIC "+w)
+							return
+						}
+						isErr := len(out.Ret) == 1 && isErrTok(out.Ret[0])
+						switch {
+						case ptype != "Configuration":
+							rs.hit("not-configuration")
+							if !isErr || len(decoded) != 0 || len(setTargets) != 0 {
+								rs.fail("not-configuration", w)
+							}
+							return
+						case nilValue:
+							rs.hit("nil-value")
+							if isErr || len(decoded) != 0 {
+								rs.fail("nil-value", w)
+							}
+							return
+						}
+						rs.hit("error")
+						if isErr != failed {
+							rs.fail("error", w)
+						}
+						rs.hit("target")
+						okT := len(setTargets) == 1 && setTargets[0] == "prop.Value" && len(cfgs) == 1 && cfgs[0].Fields["Result"] == absint.Value(target)
+						if len(decoded) > 1 || (len(decoded) == 1 && decoded[0] != "configValue") || (!failed && len(decoded) != 1) {
+							okT = false
+						}
+						if !okT {
+							rs.fail("target", w)
+						}
+						if len(cfgs) == 1 {
+							rs.hit("config")
+							cfg := cfgs[0]
+							wantTag := "yaml"
+							if mapper {
+								wantTag = "json"
+							}
+							bad := ""
+							if cfg.Fields["WeaklyTypedInput"] != absint.Value(absint.Bool(true)) {
+								bad += " WeaklyTypedInput=" + absint.Show(cfg.Fields["WeaklyTypedInput"])
+							}
+							if cfg.Fields["TagName"] != absint.Value(absint.Str(wantTag)) {
+								bad += " TagName=" + absint.Show(cfg.Fields["TagName"]) + " (want " + wantTag + ")"
+							}
+							for _, k := range []string{"ErrorUnused", "ErrorUnset", "ZeroFields", "Squash", "IgnoreUntaggedFields"} {
+								if v, set := cfg.Fields[k]; set && v != absint.Value(absint.Bool(false)) {
+									bad += " " + k + "=" + absint.Show(v)
 								}
 							}
+							if bad != "" {
+								rs.fail("config", w+" decoder configuration:"+bad)
+							}
 						}
+					}
+					n, u := runTable(c, unm, build, check)
+					runs += n
+					if u != "" {
+						r.Undecided("C17.R4", cons, c.FnPos(unm), "abstract interpretation left the model: "+u)
+						return
 					}
 				}
 			}
 		}
 	}
-	if !r.Exactly("C17.R4", "mapstructure.DecoderConfig literals in scope", nCfg, 1) {
-		return
-	}
-	bad := ""
-	for k, v := range want {
-		if got[k] != v {
-			bad += fmt.Sprintf(" %s=%s (want %s)", k, got[k], v)
-		}
-	}
-	for _, k := range zeroWanted {
-		if v, set := got[k]; set && v != "false" {
-			bad += fmt.Sprintf(" %s=%s (want false)", k, v)
-		}
-	}
-	var keys []string
-	for k := range got {
-		keys = append(keys, k+"="+got[k])
-	}
-	sort.Strings(keys)
-	r.Check(bad == "" && resultFromParam, "C17.R4", "decoder-config", c.FnPos(unm), "decoder configuration matches the frozen table (weakly typed input, yaml tag names, no zeroing / squashing / unused-key errors, result = the supplied pointer): "+strings.Join(keys, " ")+bad)
+	r.Count("unmarshall_table_runs", runs)
+	rs.report(c, r, unm, func(string) string { return "C17.R4" }, cons, unmarshallRows)
 }
 
 func c17SetValue(c *core.Ctx, r *core.Report) {
